@@ -46,7 +46,20 @@ def load(p):
     return c
 
 
+THOROUGH = {"list": [1, 2, 4, 5, 7, 11, 12], "basic": [1, 2], "strict": [0, 1], "title": [0, 3], "fixed": [0, 1], "docmarks": [0, 1],
+            "iso": [0, 1, 3], "table": [0, 1], "ni": [0, 1], "mx1": [1], "mx2": [3], "mx3": [1], "mx4": [4], "mx5": [2], "mx6": [3]}
+
+
 def doc_partitions(schema_names, tier, quick_n=2, seed=0, max_size=None):
+    if tier == "thorough":
+        # the thorough tier is sized to roughly twenty minutes per property on 16 cores: a fixed, feature-covering
+        # subset of the catalogue (all payloads) instead of every template
+        return [{"schema": sn, "doc": i} for sn in schema_names for i in THOROUGH.get(sn, [0])
+                if max_size is None or templates.doc(sn, i).content.size <= max_size]
+    return _doc_partitions(schema_names, tier, quick_n, seed, max_size)
+
+
+def _doc_partitions(schema_names, tier, quick_n=2, seed=0, max_size=None):
     """[{schema, doc}] - quick takes quick_n templates per schema rotated by seed."""
     out = []
     for sn in schema_names:
